@@ -471,7 +471,26 @@ def triage(run):
           region = "codes_below_eps"
         run.violation(sig_of(o.meta["cls"], o.meta["kw"], o.meta["clause"], region), detail, rep)
       else:
-        run.inconclusive_("counterexample of %s does not reproduce on the real code: %s" % (o.oid, detail))
+        # the model may sit inside a tie window of the Log contract (where either neighbour is admissible for the model but the
+        # real kernel decides): ask once more for a counterexample outside every window before giving up
+        retry = None
+        if "(check-sat)" in (o.smt or ""):
+          man = "((_ extract 22 0) x_b)"
+          win = ("(or (bvult %s #b%s) (bvugt %s #b%s) (and (bvuge %s #b%s) (bvule %s #b%s)))"
+                 % (man, format(4 * ir.LOG_WIN, "023b"), man, format((1 << 23) - 4 * ir.LOG_WIN, "023b"),
+                    man, format(ir.SQRT2_MAN - 4 * ir.LOG_WIN, "023b"), man, format(ir.SQRT2_MAN + 4 * ir.LOG_WIN, "023b")))
+          smt2 = o.smt.replace("(check-sat)", "(assert (not %s))\n(check-sat)" % win, 1)
+          r2 = harness.solve.run_smt(smt2, o.solver, o.timeout, o.oid + "_retry")
+          run.aux["window_retries"] = run.aux.get("window_retries", 0) + 1
+          if r2.verdict == "sat":
+            rep2 = dict(rep, x_bits=r2.model.get("x_b"))
+            ok2, detail2 = replay_concrete(rep2)
+            if ok2:
+              retry = (rep2, detail2)
+        if retry is not None:
+          run.violation(sig_of(o.meta["cls"], o.meta["kw"], o.meta["clause"], region), retry[1], retry[0])
+        else:
+          run.inconclusive_("counterexample of %s does not reproduce on the real code: %s" % (o.oid, detail))
     elif region == "huge":
       # informational region: a timeout here is not a verdict about the claimed domain
       run.aux["huge_region_undecided"] = run.aux.get("huge_region_undecided", 0) + 1
